@@ -56,11 +56,19 @@ func writeCorpus(work string, progs []*prog.Program) *corpus {
 	sum, _ := os.ReadFile(filepath.Join(vc.RepoDir, "go.sum"))
 	must(os.WriteFile(filepath.Join(dir, "go.sum"), sum, 0o644))
 	for _, p := range progs {
-		d := filepath.Join(dir, progDir(p))
-		must(os.MkdirAll(d, 0o755))
-		must(os.WriteFile(filepath.Join(d, "p.go"), []byte(p.Source()), 0o644))
+		writeProgFiles(dir, progDir(p), p)
 	}
 	return c
+}
+
+// writeProgFiles writes a program (p.go and, if it imports functions, its
+// helper packages) under dir/rel of the scratch module.
+func writeProgFiles(dir, rel string, p *prog.Program) {
+	for name, content := range p.Files("scratch/" + rel) {
+		path := filepath.Join(dir, rel, name)
+		must(os.MkdirAll(filepath.Dir(path), 0o755))
+		must(os.WriteFile(path, []byte(content), 0o644))
+	}
 }
 
 func must(err error) {
